@@ -6,6 +6,7 @@ import (
 	"sort"
 	"strings"
 	"sync"
+	"sync/atomic"
 	"testing"
 	"time"
 
@@ -353,7 +354,7 @@ func TestVerifP2cConcurrent(t *testing.T) {
 		bound = 3
 	}
 	for _, n := range []int{1, 2} {
-		for _, kind := range []string{"pick|done", "pick|pick", "done|done", "pick|done|pick", "done|done|tick", "done|fail|tick"} {
+		for _, kind := range []string{"pick|done", "pick|pick", "done|done", "pick|done|pick", "done|done|tick", "done|fail|tick", "fail|fail@low", "fail|done@low"} {
 			if !vrt.Shard(50 + n) {
 				continue
 			}
@@ -374,10 +375,16 @@ func TestVerifP2cConcurrent(t *testing.T) {
 					s.picks[ids[i]]++
 				}
 				vrt.Advance(3 * time.Millisecond)
+				if strings.HasSuffix(kind, "@low") {
+					// the backend has been failing for a while: its score is at the bottom of the scale
+					for _, c := range s.p.conns {
+						atomic.StoreUint64(&c.success, 1)
+					}
+				}
 				var wg sync.WaitGroup
 				var mu sync.Mutex
 				di := 0
-				for _, role := range strings.Split(kind, "|") {
+				for _, role := range strings.Split(strings.TrimSuffix(kind, "@low"), "|") {
 					role := role
 					wg.Add(1)
 					go func() {
